@@ -48,9 +48,21 @@ func raceStatements(r *Rand, g int, n int) []string {
 		case 11:
 			out = append(out, fmt.Sprintf("select key where key ^= '%s' & (value ~= '^[0-9]+$' | value in ('a', 'b'))", pfx))
 		case 12:
-			out = append(out, "select nosuchfunc(key) where key ^= 'ro-'") // error path: message formatting
+			if r.Bool() {
+				// the short form without a select list
+				out = append(out, fmt.Sprintf("where key ^= '%s' & value != 'zz' limit %d", pfx, 1+r.Intn(4)))
+			} else {
+				out = append(out, "where key ^= 'ro-' & key ~= '[0-9]$' order by key desc")
+			}
 		default:
-			out = append(out, "select * where key > 'ro-' & key <") // syntax error path
+			switch r.Intn(3) {
+			case 0:
+				out = append(out, "select * where key > 'ro-' & key <") // syntax error path
+			case 1:
+				out = append(out, "select nosuchfunc(key) where key ^= 'ro-'") // error path: message formatting
+			default:
+				out = append(out, fmt.Sprintf("select key, avg(strlen(value)) as a, min(int(value)), group_concat(key, ',') where key ^= '%s' & is_int(value) group by key order by a", pfx))
+			}
 		}
 	}
 	return out
